@@ -401,6 +401,9 @@ func c28Main() {
 				// Fetch/Produce by topic id: resolveTopicID refreshes the caches on a miss
 				_ = p.resolveTopicID(ctx, c28ID(f[1]))
 				return "ok"
+			case f[0] == "conn":
+				// one client connection through the real handleConnection loop (zz_verif_c28conn.go)
+				return c28Conn(p, f)
 			case f[0] == "par" && len(f) >= 2:
 				// par v:req v:req ...   k overlapping Metadata requests; request 0 is started first and is
 				// inside store.Metadata (held by the gate) when the others arrive.
